@@ -124,6 +124,16 @@ def corpus():
                   P(('call', 'g', [v('x')])), P(v('lamp')),
                   ('return', ('expr', ('bin', '*', v('x'), num(2))))]),
                 P(('call', 'f', [num(2), ('str', 'a')])), P(('macro', 'x')), P(('macro', 'lamp'))])
+    # … also when the parameter is WRITTEN: assigned (at any depth), used as a loop's index variable
+    out.append([('define_macro', 'top', num(5)), ('define_macro', 'idx', num(9)),
+                ('define', 'clamp', ['v', 'top'],
+                 [('if', ('expr', ('bin', '>', v('v'), v('top'))), [('assign', 'top', ('expr', ('bin', '+', v('top'), num(100))))], None),
+                  ('repeat', ('count', num(2)), [('assign', 'top', ('expr', ('bin', '+', v('top'), num(1))))]),
+                  ('return', v('top'))]),
+                ('define', 'walk', ['idx'],
+                 [('repeat', ('range', 'idx', num(1), num(3)), [P(v('idx'))]), ('return', v('idx'))]),
+                P(('call', 'clamp', [num(7), num(3)])), P(('call', 'clamp', [num(1), num(3)])),
+                P(('call', 'walk', [num(40)])), P(('macro', 'top')), P(('macro', 'idx'))])
     return [(prog, pop) for prog in out]
 
 
